@@ -38,6 +38,10 @@ class EmptySpecifier(BaseSpecifier):
     def __contains__(self, value: str) -> bool:
         return False
 
+    def contains(self, version: t.Any, prereleases: t.Optional[bool] = None) -> bool:
+        """Like VersionSpecifier.contains: `a & b` can be empty, callers need not care."""
+        return False
+
 
 class AnySpecifier(BaseSpecifier):
     def __invert__(self) -> BaseSpecifier:
@@ -75,4 +79,8 @@ class AnySpecifier(BaseSpecifier):
         return True
 
     def __contains__(self, value: str) -> bool:
+        return True
+
+    def contains(self, version: t.Any, prereleases: t.Optional[bool] = None) -> bool:
+        """Like VersionSpecifier.contains: `a | b` can be universal, callers need not care."""
         return True
